@@ -888,7 +888,26 @@ pub fn apply(d: &mut Vec<u8>, op: Op, donor: &dyn Fn(u32) -> Vec<u8>, max_len: u
             } else {
                 let i = el[pick(op.sel, el.len())];
                 let n = nodes[i];
+                // times: half from the table, half a generated calendar-shaped value (any
+                // century, months 0..13, days 0 and 28..32, hours to 24, minutes / seconds to 60)
+                let generated: Vec<u8>;
                 let val: &[u8] = match n.tag {
+                    0x17 | 0x18 if op.b & 0x10 != 0 => {
+                        let a = op.a;
+                        let year = [1600u32, 1900, 2000, 2100, 2200, 2300, 2400, 1950, 2049, 2050, 1, 9999, 2024, 2023][(a % 14) as usize] + ((a >> 4) % 3);
+                        let month = [0u32, 1, 2, 2, 2, 4, 6, 8, 9, 11, 12, 13][((a >> 6) % 12) as usize];
+                        let day = [0u32, 1, 28, 29, 29, 30, 31, 32][((a >> 10) % 8) as usize];
+                        let (h, mi, sec) = ([0u32, 12, 23, 24][((a >> 13) % 4) as usize], [0u32, 59, 60][((a >> 15) % 3) as usize], [0u32, 59, 60, 61][((a >> 17) % 4) as usize]);
+                        let final_tag = if op.b % 4 == 0 { n.tag ^ 0x0f } else { n.tag };
+                        // the form that goes with the tag the value ends up under (1 in 8: the other)
+                        let generalized = (final_tag == 0x18) != ((a >> 19) % 8 == 0);
+                        generated = if generalized {
+                            format!("{:04}{:02}{:02}{:02}{:02}{:02}Z", year, month, day, h, mi, sec).into_bytes()
+                        } else {
+                            format!("{:02}{:02}{:02}{:02}{:02}{:02}Z", year % 100, month, day, h, mi, sec).into_bytes()
+                        };
+                        &generated
+                    }
                     0x17 | 0x18 => TIME_EDGES[op.a as usize % TIME_EDGES.len()],
                     0x06 => OID_EDGES[op.a as usize % OID_EDGES.len()],
                     _ => STR_EDGES[op.a as usize % STR_EDGES.len()],
